@@ -133,6 +133,13 @@ fn generate(rng: &mut Rng, index: u64) -> ConnScenario {
             menu.push((fi, 11, k)); // a legal frame (plugin message) whose length is at / just below the configured maximum
         }
     }
+    for (fi, f) in frames.iter().enumerate() {
+        if matches!(f.kind.as_str(), "Extra" | "ClientInfo" | "LoginAck") {
+            for k in 1..4u64.min(f.end - f.start) {
+                menu.push((fi, 12, k)); // the first k bytes of the frame (k = 1: nothing but its length prefix), then silence until the keep-alive timeout
+            }
+        }
+    }
     for k in 0..6 {
         menu.push((0, 10, k)); // a long run of valid ignorable frames in one burst while the server waits for Client Information
     }
@@ -205,6 +212,11 @@ fn generate(rng: &mut Rng, index: u64) -> ConnScenario {
                 _ => sc.client.close_after = Some((fi + 1, false)),
             }
         }
+        12 => {
+            sc.client.mutations.push(Mutation { frame: fi, op: MutOp::Truncate { keep: par as usize } });
+            sc.client.mute_after = Some(fi + 1);
+            sc.client.ka_default = crate::client::KaPolicy::Never;
+        }
         10 => {
             let (count, size) = [(200u32, 50u32), (600, 300), (1500, 700), (3000, 90), (400, 2000), (2500, 401)][par as usize % 6];
             sc.cfg.max_frame = None;
@@ -248,6 +260,12 @@ fn generate(rng: &mut Rng, index: u64) -> ConnScenario {
             let g = rng.pick(&frames).clone();
             sc.client.cuts.push(Cut { at: rng.range(g.start, g.end - 1), gate: if rng.chance(1, 2) { Gate::Now } else { Gate::Delay { ns: ms(1) } }, spurious: rng.below(3) as u8 });
         }
+    }
+    // a host name of several kilobytes (legal as long as the handshake frame fits): it ends up in the session cookie
+    if class == 2 && sc.cfg.max_frame.is_none_or(|m| m >= 10_000) && rng.chance(1, 6) {
+        sc.client.mutations.clear();
+        sc.client.close_after = None;
+        sc.client.host = format!("{}.example.org", "h".repeat(*rng.pick(&[4000usize, 5100, 5200, 7000, 9000])));
     }
     // a history of connections that differ only in what the client chooses: afterwards the process holds no more memory than before
     if rng.chance(1, 25) {
@@ -508,6 +526,7 @@ impl Check for C04 {
             let name = match m.op {
                 MutOp::OuterLen { .. } => "mut_outer_length",
                 MutOp::OuterRaw { .. } => "mut_overlong_length_prefix",
+                MutOp::Truncate { .. } if sc.client.close_after.is_none() && sc.client.mute_after.is_some() => "mut_truncate_then_silence_until_the_keep_alive_timeout",
                 MutOp::Truncate { .. } => "mut_truncate_then_eof",
                 MutOp::Patch { .. } | MutOp::Splice { .. } => "mut_splice_inner",
                 MutOp::Append { .. } => "mut_append_junk",
